@@ -161,4 +161,127 @@ theorem predLpc_agree (off : Int) (coefs : List Int) (c : Int) (a b : List Int)
         simp [this]
     rw [e]; omega
 
+/-! ## what one decoded block looks like -/
+
+theorem window_take {n m : Nat} (l : List Int) (hnm : n ≤ m) : (window m l).take n = window n l := by
+  apply eq_window_of_agree
+  · refine ⟨by simp [window_length]; omega, ?_⟩
+    intro j hj
+    have : ((window m l).take n).getD j 0 = (window m l).getD j 0 := by
+      simp [List.getD_eq_getElem?_getD, hj]
+    rw [this, getD_window l (by omega)]; omega
+  · simp [window_length]; omega
+
+theorem window_take_hist {n m : Nat} (l : List Int) (hnm : n ≤ m) (hl : n ≤ l.length) :
+    (window m l).take n = l.take n := by
+  unfold window
+  rw [List.take_take, Nat.min_eq_left hnm, List.take_append]
+  have : n - l.length = 0 := by omega
+  rw [this]; simp
+
+theorem nwrap_ge (h : Hdr) : 3 ≤ h.nwrap ∧ h.maxnlpc ≤ h.nwrap := by
+  unfold Hdr.nwrap NWRAP; omega
+
+/-- `buf1` is `buf` with its first `nw + bs` cells replaced by the reversal of `A`, whose `bs` most recent
+    entries are the new samples and whose `nw` most recent entries are the new history window -/
+def BlockPost (nw bs : Nat) (buf buf1 hist' : List Int) : Prop :=
+  ∃ A : List Int, buf1 = A.reverse ++ buf.drop (nw + bs) ∧ A.length = nw + bs ∧
+    A.take bs = hist'.take bs ∧ A.take nw = window nw hist' ∧ bs ≤ hist'.length
+
+theorem hist_of_buf {nw : Nat} {buf sh : List Int} (hbuf : buf.take nw = (window nw sh).reverse) :
+    (slice buf 0 nw).reverse = window nw sh := by
+  simp [slice, hbuf]
+
+theorem setSlice_zero_reverse (buf A : List Int) (n : Nat) (hA : A.length = n) :
+    setSlice buf 0 A.reverse = A.reverse ++ buf.drop n := by
+  simp [setSlice, hA]
+
+theorem blockPost_diff (h : Hdr) (k : Nat) (coff : Int) (res buf sh : List Int) :
+    BlockPost h.nwrap res.length buf
+      (setSlice buf 0 (runBlock (predDiff k coff) res (window h.nwrap sh)).reverse)
+      (runBlock (predDiff k coff) res sh) := by
+  have hnw := nwrap_ge h
+  have hag := runBlock_sim (c := 0) (n := 3) (predDiff_agree k coff) res h.nwrap _ _ hnw.1 (agree_window h.nwrap sh)
+  have hlen := runBlock_length (predDiff k coff) res (window h.nwrap sh)
+  rw [window_length] at hlen
+  have hl' := runBlock_length (predDiff k coff) res sh
+  have hw := eq_window_of_agree hag (by omega)
+  refine ⟨_, setSlice_zero_reverse _ _ (h.nwrap + res.length) (by omega), by omega, ?_, ?_, by omega⟩
+  · rw [hw]; exact window_take_hist _ (by omega) (by omega)
+  · rw [hw]; exact window_take _ (by omega)
+
+theorem take_append_window (n : Nat) (N sh : List Int) : (N ++ window n sh).take n = window n (N ++ sh) := by
+  unfold window
+  rw [List.take_append, List.take_take, List.append_assoc, List.take_append (l₁ := N)]
+  congr 2
+  omega
+
+theorem window_self_of_le {n : Nat} (l : List Int) (hl : n ≤ l.length) : window n l = l.take n := by
+  have := window_take_hist (n := n) (m := n) l (Nat.le_refl _) hl
+  rwa [List.take_of_length_le (by rw [window_length]; exact Nat.le_refl _)] at this
+
+theorem blockPost_zero (nw bs : Nat) (buf sh : List Int) (hbuf : buf.take nw = (window nw sh).reverse) :
+    BlockPost nw bs buf (setSlice buf nw (List.replicate bs 0)) (List.replicate bs 0 ++ sh) := by
+  refine ⟨List.replicate bs 0 ++ window nw sh, ?_, by simp [window_length]; omega, by simp, ?_, by simp⟩
+  · simp [setSlice, hbuf]
+  · exact take_append_window nw _ sh
+
+theorem blockPost_qlpc (h : Hdr) (coefs : List Int) (coff : Int) (res buf sh : List Int)
+    (hn : coefs.length ≤ h.nwrap) (hbs : h.nwrap ≤ res.length) :
+    let hist := window h.nwrap sh
+    let hist' := (hist.take coefs.length).map (· - coff) ++ hist.drop coefs.length
+    let acc := runBlock (fun a => (lpcSum h.lpcqoffset coefs a) >>> LPCQUANT) res hist'
+    let acc' := if coff ≠ 0 then (acc.take res.length).map (· + coff) ++ acc.drop res.length else acc
+    BlockPost h.nwrap res.length buf (setSlice buf 0 acc'.reverse)
+      (runBlock (predLpc h.lpcqoffset coefs coff) res sh) := by
+  intro hist hist' acc acc'
+  have hlh : hist.length = h.nwrap := window_length _ _
+  have hlh' : hist'.length = h.nwrap := by
+    simp only [hist', List.length_append, List.length_map, List.length_take, List.length_drop, hlh]; omega
+  have hag0 : Agree coff coefs.length hist' sh := by
+    refine ⟨by omega, ?_⟩
+    intro j hj
+    have e : hist'.getD j 0 = hist.getD j 0 - coff := by
+      have hj' : j < hist.length := by omega
+      simp only [hist', List.getD_eq_getElem?_getD, List.getElem?_append, List.length_map, List.length_take,
+        List.getElem?_map, List.getElem?_take]
+      have : j < min coefs.length hist.length := by omega
+      simp [this, hj, List.getElem?_eq_getElem hj']
+    rw [e, getD_window sh (by omega)]; omega
+  obtain ⟨X, hXdef⟩ : ∃ X, X = runBlock (predLpc h.lpcqoffset coefs coff) res sh := ⟨_, rfl⟩
+  rw [← hXdef]
+  have hag : Agree coff (coefs.length + res.length) acc X := by
+    rw [hXdef]
+    exact runBlock_sim (c := coff) (n := coefs.length) (predLpc_agree h.lpcqoffset coefs coff) res
+      coefs.length _ _ (Nat.le_refl _) hag0
+  have hlen : acc.length = res.length + h.nwrap := by rw [← hlh']; exact runBlock_length _ _ _
+  have hX : X.length = res.length + sh.length := by rw [hXdef]; exact runBlock_length _ _ _
+  have hdrop : acc.drop res.length = hist' := runBlock_drop _ _ _
+  -- the new samples, un-offset
+  have hnew : (acc.take res.length).map (· + coff) = X.take res.length := by
+    apply List.ext_getElem
+    · simp; omega
+    · intro i h1 h2
+      have hi : i < res.length := by
+        have := h2
+        simp only [List.length_take] at this
+        omega
+      have := hag.2 i (by omega)
+      simp only [List.getD_eq_getElem?_getD] at this
+      rw [List.getElem?_eq_getElem (by omega), List.getElem?_eq_getElem (by omega)] at this
+      simpa using this
+  have hacc' : acc' = X.take res.length ++ hist' := by
+    by_cases hc : coff = 0
+    · have : acc' = acc := by simp [acc', hc]
+      rw [this, ← hnew, hc]
+      simp only [Int.add_zero, List.map_id', ← hdrop, List.take_append_drop]
+    · have : acc' = (acc.take res.length).map (· + coff) ++ acc.drop res.length := by simp [acc', hc]
+      rw [this, hnew, hdrop]
+  refine ⟨acc', setSlice_zero_reverse _ _ (h.nwrap + res.length) (by rw [hacc']; simp; omega),
+    by rw [hacc']; simp; omega, ?_, ?_, by omega⟩
+  · rw [hacc', List.take_append_of_le_length (by simp; omega)]
+    rw [List.take_take, Nat.min_self]
+  · rw [hacc', List.take_append_of_le_length (by simp; omega), List.take_take, Nat.min_eq_left hbs,
+      window_self_of_le _ (by omega)]
+
 end PdsVerif.Model.Shorten
